@@ -1,6 +1,13 @@
 #!/bin/bash
-# MANIFEST.setup_cmd: build the Lean project (models, proofs) and every line-protocol driver, offline.
-set -e
-cd "$(dirname "$0")/lean"
-lake build
-lake build $(grep -o 'name = "driver_[a-z0-9_]*"' lakefile.toml | sed 's/name = "//; s/"//')
+# MANIFEST.setup_cmd: pre-build the Lean project (models, proofs) and every line-protocol driver, offline.
+# Every check re-runs `lake build` for its own targets (a no-op after this), so a module of a property that is
+# still being built must not make the whole setup fail: failures are reported here and decided by the check.
+cd "$(dirname "$0")/lean" || exit 2
+command -v lake >/dev/null || { echo "lake not on PATH"; exit 2; }
+rc=0
+lake build PedalModel || { echo "setup: PedalModel did not build completely (the affected checks will report it)"; }
+lake build PedalProofs || { echo "setup: PedalProofs did not build completely (the affected checks will report it)"; }
+for d in $(grep -o 'name = "driver_[a-z0-9_]*"' lakefile.toml | sed 's/name = "//; s/"//'); do
+  lake build "$d" || echo "setup: $d did not build (its check will report it)"
+done
+exit $rc
